@@ -265,7 +265,8 @@ def run_native(h, cases, release=False, timeout=60):
     exe = build_release(h) if release else h.native
     inp = ''.join(f"{e}|{' '.join(t)}|{s}\n" for e, t, s in cases)
     try:
-        r = subprocess.run(['bash', '-c', f'ulimit -s 4096; exec {exe}'], input=inp, capture_output=True, text=True, timeout=timeout)
+        # `timeout -s KILL` inside: the process ends by itself even if this check is killed while it spins
+        r = subprocess.run(['bash', '-c', f'ulimit -s 4096; exec timeout -s KILL {int(timeout) + 5} {exe}'], input=inp, capture_output=True, text=True, timeout=timeout)
     except subprocess.TimeoutExpired:
         return [{'timeout': True}] * len(cases)
     out = []
